@@ -492,6 +492,7 @@ void tick_scalar() {
     }
 #if !defined(SIM_SELFCHK)
   } else if (S.active && S.cfg.static_init_throw && ++S.static_ticks == S.cfg.static_init_throw) {
+    S.stats->static_init_faults++;
     throw ScalarFault();  // StaticInitThrow: exercises __cxa_guard_abort
 #endif
   }
